@@ -336,6 +336,10 @@ def h_serial_silence(ctx, which, when, dt=False):
     import dali.gear.led as led
     cmd = led.QueryFeatures(A.GearShort(1)) if dt else gg.QueryActualLevel(A.GearShort(1))
     out = {}
+    cut = 0
+    if when == "truncated":
+        full_len = len(rigs.luba_event_tx(1, b"\x00\x00")) if which == "luba" else 5
+        cut = 1 + ctx.fresh_choice("cut", full_len - 1)
 
     async def main(loop):
         d, p, t = (rigs.luba_driver if which == "luba" else rigs.sci_driver)(loop)
@@ -343,6 +347,13 @@ def h_serial_silence(ctx, which, when, dt=False):
         def gateway(data):
             if when == "confirm":
                 return                       # the gateway never confirms
+            if when == "truncated":
+                # the confirmation breaks off after k bytes, then the line stays dead
+                if out.get("writes", 0) == 0:
+                    full = rigs.luba_event_tx(1, data[6:8]) if which == "luba" else rigs.sci_frame(0x10, 0, 0, 0)
+                    loop.call_later(0.02, p.data_received, bytes(full[:cut]))
+                out["writes"] = out.get("writes", 0) + 1
+                return
             if which == "luba":
                 loop.call_later(0.02, p.data_received, rigs.luba_event_tx(1, data[6:8]))
             else:
@@ -368,7 +379,7 @@ def h_serial_silence(ctx, which, when, dt=False):
     drv = S.DriverLubaRs232 if which == "luba" else S.DriverSCIRS232
     kind_, payload = out["t"]
     ctx.prove(kind_ != "pending", "send hangs on a silent gateway", key=tag + "/hang")
-    if when == "confirm":
+    if when in ("confirm", "truncated"):
         ctx.prove(kind_ == "exc", "send returned %r although the gateway never confirmed" % (payload,),
                   key=tag + "/no-error")
         ctx.prove(out["elapsed"] <= drv.timeout_tx_confirm + 0.05, "failed only after %.3f s (documented timeout "
@@ -395,6 +406,7 @@ def cases(tier):
     for p in ("write-error", "after-write"):
         cs.append(Case("hasseb-%s" % p, h_hasseb_loss, {"point": p}, install=inst))
     for which in ("luba", "sci"):
+        cs.append(Case("%s-silent-truncated" % which, h_serial_silence, {"which": which, "when": "truncated"}))
         for when in ("confirm", "answer"):
             cs.append(Case("%s-silent-%s" % (which, when), h_serial_silence, {"which": which, "when": when}))
             cs.append(Case("%s-silent-%s-dt" % (which, when), h_serial_silence,
